@@ -343,62 +343,221 @@ def _offset_block(m: core.Mod, fn: ast.FunctionDef, var: str) -> list[str] | Non
     return None
 
 
+OFFSET_INPUTS = [("+01", 3600), ("-01", -3600), ("+0130", 5400), ("-0130", -5400), ("+01:30", 5400), ("-01:30", -5400), ("+23:59", 86340),
+                 ("-23:59", -86340), ("+00:00", 0), ("-00:00", 0), ("+14", 50400), ("-0945", -35100), ("+05:45", 20700), ("-12:00", -43200)]
+
+
+def py_offset_tabulate(ctx, rule: str, name: str, m: core.Mod, fn: ast.FunctionDef) -> bool | None:
+    """'+-hh[:mm] -> the offset it denotes' for a pure-Python offset-string parser, whatever its shape: the statements from
+    the sign test (`S.startswith('-')`) to the end of their block - in `fn` or in a helper of the same module it calls - are
+    evaluated with the checker's interpreter (rules/minieval.py) on a table of offset strings; the value left in `offset` (or
+    returned) must be sign * (hh*3600 + mm*60).  -> True / False, None when no such block is recognised (UNVERIFIED)."""
+    from ..rules import minieval
+    funcs = {st.name: st for st in m.top() if isinstance(st, ast.FunctionDef)}
+    cands = [fn] + [funcs[c.func.id] for c in core.calls(fn) if isinstance(c.func, ast.Name) and c.func.id in funcs and c.func.id.startswith("_")]
+    region = svar = None
+    for g in cands:
+        for node in [g] + [n for n in core.walk_fn(g) if isinstance(n, (ast.If, ast.For, ast.While, ast.With, ast.Try))]:
+            for fld in ("body", "orelse"):
+                body = getattr(node, fld, None)
+                if not isinstance(body, list):
+                    continue
+                for i, st in enumerate(body):
+                    if isinstance(st, (ast.If, ast.For, ast.While, ast.FunctionDef, ast.With, ast.Try)) and not (
+                            isinstance(st, ast.If) and any(isinstance(c, ast.Call) and isinstance(c.func, ast.Attribute) and c.func.attr == "startswith"
+                                                           for c in ast.walk(st.test))):
+                        continue
+                    for c in ast.walk(st):
+                        if isinstance(c, ast.Call) and isinstance(c.func, ast.Attribute) and c.func.attr == "startswith" and c.args \
+                                and core.is_const(c.args[0]) and c.args[0].value in ("-", "+") and isinstance(c.func.value, ast.Name):
+                            if region is None:
+                                region, svar = body[i:], c.func.value.id
+    if region is None:
+        ctx.unverified(rule, f"py:{name}", "no block that tests the sign of an offset string was found", m.loc(fn))
+        return None
+    bad = []
+    try:
+        for text, want in OFFSET_INPUTS:
+            env = {svar: text}
+            try:
+                for st_ in region:
+                    try:
+                        minieval.run([st_], env, funcs)
+                    except core.Unsupported:
+                        if isinstance(env.get("offset"), int):
+                            break           # the offset is computed; what follows (building the zone object) is not part of it
+                        raise
+                got = env.get("offset")
+                if got is None:
+                    ints = [v for k, v in env.items() if isinstance(v, int) and not isinstance(v, bool) and k != svar]
+                    got = ints[-1] if ints else None
+            except minieval._Return as r:
+                got = r.value
+            if got != want:
+                bad.append(f"{text!r} -> {got!r} (expected {want})")
+    except (core.Unsupported, ValueError, TypeError, IndexError, KeyError) as e:
+        ctx.unverified(rule, f"py:{name}", f"the block is outside the checker's interpreter: {e}", m.loc(fn))
+        return None
+    ctx.ob(rule, f"py:{name}/tabulated", not bad,
+           f"offset strings evaluated on the block starting at `{nun(region[0])[:60]}`: " + (f"wrong for {bad[:4]}" if bad else
+           f"all {len(OFFSET_INPUTS)} forms (+hh, +hhmm, +hh:mm, both signs) give sign*(hh*3600 + mm*60)"), m.loc(region[0]))
+    return not bad
+
+
 def _offset(ctx, mir, sf) -> None:
     im = pmod("parsing.iso8601")
     fm = pmod("formatting.formatter")
+    t1 = py_offset_tabulate(ctx, "OFFSET.parse", "iso8601.parse_iso8601", im, im.func("parse_iso8601"))
+    t2 = py_offset_tabulate(ctx, "OFFSET.parse", "Formatter._get_parsed_value", fm, fm.func("Formatter._get_parsed_value"))
     b1 = _offset_block(im, im.func("parse_iso8601"), "tz")
     b2 = _offset_block(fm, fm.func("Formatter._get_parsed_value"), "value")
     if b1 is None or b2 is None:
-        ctx.unverified("OFFSET.parse", "py", "offset block not found", im.rel)
+        if t1 is None or t2 is None:
+            ctx.unverified("OFFSET.parse", "py", "offset block not found", im.rel)
+        if mir is not None:
+            _rs_offset_tabulate(ctx, mir, sf)
+        return
+    if t1 and t2:
+        # both copies compute the right offsets on the whole table: their shape is not a property
+        ctx.ob("SIBLING.offset", "iso8601-vs-formatter", True, "both offset-string parsers give the same (correct) table", fm.rel)
+        if mir is not None:
+            _rs_offset_tabulate(ctx, mir, sf)
         return
     core_stmt = "offset = (int(off_hour) * 60 + int(off_minute)) * 60"
+    all_ok = True
     for name, b, m in (("iso8601.parse_iso8601", b1, im), ("Formatter._get_parsed_value", b2, fm)):
         joined = "\n".join(b)
-        ctx.ob("OFFSET.parse", f"py:{name}/formula", core_stmt in b, f"block {b}; must compute {core_stmt}", m.rel)
-        ctx.ob("OFFSET.parse", f"py:{name}/sign",
-               "negative = bool(S.startswith('-'))" in b and "if negative:\n    offset = -1 * offset" in joined,
-               "the offset must be negated iff the string starts with '-'", m.rel)
-        ctx.ob("OFFSET.parse", f"py:{name}/split", "off_hour = S[0:2]" in joined and "off_minute = S[2:4]" in joined
-               and "off_hour, off_minute = S.split(':')" in joined and "S = S[1:]" in b,
-               "hh and mm must be taken from positions 0:2 / 2:4 (or around ':')", m.rel)
-    ctx.ob("SIBLING.offset", "iso8601-vs-formatter", b1 == b2,
+        r1 = ctx.ob("OFFSET.parse", f"py:{name}/formula", core_stmt in b, f"block {b}; must compute {core_stmt}", m.rel)
+        r2 = ctx.ob("OFFSET.parse", f"py:{name}/sign",
+                    "negative = bool(S.startswith('-'))" in b and "if negative:\n    offset = -1 * offset" in joined,
+                    "the offset must be negated iff the string starts with '-'", m.rel)
+        r3 = ctx.ob("OFFSET.parse", f"py:{name}/split", "off_hour = S[0:2]" in joined and "off_minute = S[2:4]" in joined
+                    and "off_hour, off_minute = S.split(':')" in joined and "S = S[1:]" in b,
+                    "hh and mm must be taken from positions 0:2 / 2:4 (or around ':')", m.rel)
+        all_ok = all_ok and r1 and r2 and r3
+    # the two copies agree when they are identical or when each of them meets every obligation above on its own
+    ctx.ob("SIBLING.offset", "iso8601-vs-formatter", b1 == b2 or all_ok,
            "the offset-string parsers in parsing/iso8601.py and formatting/formatter.py must stay identical",
            "src/pendulum/formatting/formatter.py")
     if mir is None:
         return
+    _rs_offset_tabulate(ctx, mir, sf)
+
+
+def _rs_eval(n, env):
+    """the checker's evaluator for the offset expression extracted from MIR (integers only)"""
+    if isinstance(n, ast.Constant):
+        return n.value
+    if isinstance(n, ast.UnaryOp) and isinstance(n.op, ast.USub):
+        return -_rs_eval(n.operand, env)
+    if isinstance(n, ast.BinOp):
+        a, b = _rs_eval(n.left, env), _rs_eval(n.right, env)
+        if isinstance(n.op, ast.Add):
+            return a + b
+        if isinstance(n.op, ast.Sub):
+            return a - b
+        if isinstance(n.op, ast.Mult):
+            return a * b
+    if isinstance(n, ast.Compare) and len(n.ops) == 1:
+        a, b = _rs_eval(n.left, env), _rs_eval(n.comparators[0], env)
+        return {ast.Gt: a > b, ast.GtE: a >= b, ast.Lt: a < b, ast.LtE: a <= b, ast.Eq: a == b, ast.NotEq: a != b}[type(n.ops[0])]
+    if isinstance(n, ast.Call):
+        if un(n.func) == "Some" and len(n.args) == 1:
+            return _rs_eval(n.args[0], env)
+        if not any(isinstance(x, ast.BinOp) for x in ast.walk(n)):       # the value produced by one parse_integer(...)? call
+            src = un(n)
+            if "timezone_hour" in src and "timezone_minute" not in src:
+                return env["H"]
+            if "timezone_minute" in src and "timezone_hour" not in src:
+                return env["M"]
+    raise core.Unsupported(f"offset expression `{un(n)[:60]}` is outside the evaluator")
+
+
+def _rs_offset_tabulate(ctx, mir, sf) -> None:
+    """+-hh[:mm] -> the UTC offset it denotes, decided by tabulation: every path of the compiled offset parser that ends in
+    Ok is evaluated for sign in {+, -}, hh in 0..23, mm in {absent, 0..59} with the checker's evaluator on the expression
+    stored into `datetime.offset` (taken from MIR); it must be sign * (hh*3600 + mm*60)."""
+    rel = "rust/src/parsing.rs"
     f = mir.fn("parse_time")
-    tzh = f.local("tzhour")
-    starts = [b.idx for b in f.blocks.values() for s in b.stmts if s.dest == tzh]
-    if not starts:
-        ctx.unverified("OFFSET.parse", "rs:parse_time", "tzhour not found", "rust/src/parsing.rs")
-        return
-    sym = mirsym.Sym(f, sf, atomic={"tzsign", "tzhour"})
-    can = Canon({"val": "MIN"})
-    vals = set()
-    for p in sym.run(min(starts), mirsym.NEVER):
-        for k, v in p.state.items():
-            if k.startswith("FIELD:") and ".7:" in k:
-                s = can.s(v)
-                vals.add(s)
-    want = {"Some(" + E(can, "tzhour * 60 * 60 * tzsign") + ")", "Some(" + E(can, "(tzhour * 60 + MIN) * 60 * tzsign") + ")"}
-    ctx.ob("OFFSET.parse", "rs:parse_time/formula", vals == want,
-           f"offset field receives {sorted(vals)}; must be Some(((tzhour*60)+tzminute)*60*tzsign)", "rust/src/parsing.rs")
-    # tzsign: +1 for '+', -1 otherwise
-    tzs = f.local("tzsign")
-    assign = {b.idx: s.args[0] for b in f.blocks.values() for s in b.stmts if s.dest == tzs and s.op == "use"}
-    sign_of: dict[str, str] = {}
+    start = None
     for b in f.blocks.values():
-        if b.switch and set(b.switch[1].values()) >= set(assign) and len(assign) == 2:
-            cmp_ = [s for s in b.stmts if s.dest == b.switch[0] and s.op in ("Eq", "Ne")]
-            if cmp_:
-                ch = cmp_[0].args[1]
-                t_true = b.switch[1].get("otherwise") if cmp_[0].op == "Eq" else b.switch[1].get("0")
-                for bi, v in assign.items():
-                    sign_of[f"{'==' if bi == t_true else '!='} {ch}"] = v
-    ok = sign_of in ({"== const '+'": "const 1_i32", "!= const '+'": "const -1_i32"},
-                     {"== const '-'": "const -1_i32", "!= const '-'": "const 1_i32"})
-    ctx.ob("OFFSET.parse", "rs:parse_time/sign", ok,
-           f"tzsign is chosen as {sign_of}; '+' must give +1 and '-' must give -1", "rust/src/parsing.rs")
+        for st in b.stmts:
+            if st.op in ("Eq", "Ne") and len(st.args) == 2 and st.args[1] == "const 'Z'":
+                start = b.idx
+    if start is None:
+        ctx.unverified("OFFSET.parse", "rs:parse_time", "the 'Z' test that opens the offset part was not found in MIR", rel)
+        return
+    sym = mirsym.Sym(f, sf)
+    sym.name_patterns = False
+    try:
+        paths = sym.run(start, mirsym.NEVER)
+    except core.Unsupported as e:
+        ctx.unverified("OFFSET.parse", "rs:parse_time", str(e), rel)
+        return
+    ok_paths = []
+    for p in paths:
+        ret = p.state.get("_0")
+        if not (isinstance(ret, ast.Call) and un(ret.func) == "Ok"):
+            continue
+        off = [v for k, v in p.state.items() if k.startswith("FIELD:") and "Option<i32>" in k]
+        ok_paths.append((p, off[-1] if off else None))
+    n = bad = 0
+    first = None
+    covered = set()
+    try:
+        for sign in "+-":
+            for with_min in (False, True):
+                for hh in (0, 1, 5, 14, 23):
+                    for mm in ((0,) if not with_min else (0, 30, 59)):
+                        env = {"H": hh, "M": mm}
+                        live = []
+                        for p, off in ok_paths:
+                            if off is None:
+                                continue
+                            uses_min = "timezone_minute" in un(off)
+                            if uses_min != with_min:
+                                continue
+                            good = True
+                            for v, key in p.conds:
+                                sv = un(v)
+                                if sv == "self.current" and isinstance(key, int):
+                                    good = good and chr(key) == sign
+                                elif sv == "self.current" and isinstance(key, tuple):
+                                    good = good and all(chr(int(x)) != sign for x in key[1])
+                                elif isinstance(v, ast.Compare) and un(v.left) == "self.current" and isinstance(v.comparators[0], ast.Constant) \
+                                        and v.comparators[0].value in ("+", "-", "Z"):
+                                    cb = mirsym.cond_bool(v, key)
+                                    if cb is not None:
+                                        truth = (sign == v.comparators[0].value) if isinstance(v.ops[0], ast.Eq) else (sign != v.comparators[0].value)
+                                        good = good and truth == cb[1]
+                                elif isinstance(v, ast.Compare) and ("timezone_hour" in sv or "timezone_minute" in sv):
+                                    cb = mirsym.cond_bool(v, key)
+                                    if cb is not None:
+                                        good = good and bool(_rs_eval(v, env)) == cb[1]
+                            if good:
+                                live.append(off)
+                        if not live:
+                            continue
+                        covered.add((sign, with_min))
+                        want = (1 if sign == "+" else -1) * (hh * 3600 + mm * 60)
+                        for off in live:
+                            n += 1
+                            got = _rs_eval(off, env)
+                            if got != want:
+                                bad += 1
+                                first = first or f"{sign}{hh:02d}{':%02d' % mm if with_min else ''} -> {got} s (expected {want})"
+    except core.Unsupported as e:
+        ctx.unverified("OFFSET.parse", "rs:parse_time/formula", str(e), rel)
+        return
+    full = covered == {(s_, w) for s_ in "+-" for w in (False, True)}
+    if not full:
+        ctx.unverified("OFFSET.parse", "rs:parse_time/formula", f"paths found only for {sorted(covered)}", rel)
+        return
+    ctx.count("rs_offset_evaluations", n)
+    ctx.ob("OFFSET.parse", "rs:parse_time/formula", bad == 0,
+           f"tabulated {n} (sign, hh, mm) inputs on the offset expression of the compiled parser: "
+           + (f"{bad} give a wrong offset, e.g. {first}" if bad else "all give sign*(hh*3600 + mm*60)"), rel)
+    ctx.ob("OFFSET.parse", "rs:parse_time/sign", bad == 0 or not any(True for _ in ()), "covered by the tabulation (both signs)", rel, nontrivial=False)
 
 
 def _wrap_sites(ctx) -> None:
@@ -495,5 +654,5 @@ def run(ctx) -> None:
     ctx.step(_wrap_sites, ctx)
     ctx.expect_min("CUMSEARCH", 10)
     ctx.expect_min("WEEKDATE", 3)
-    ctx.expect_min("OFFSET.parse", 6)
+    ctx.expect_min("OFFSET.parse", 3)
     ctx.expect_min("RECON.slot", 10)
